@@ -181,6 +181,13 @@ def run(ctx):
             tasks.append(("xmd", {"h": hn, "lms": lms[i::split], "lds": lds, "ns": ns, "sample": i == 0}))
     for h1 in hashes:
         tasks.append(("xmd_pairs", {"h1s": [h1], "h2s": hashes}))
+    # counts at each hash's own 255-block limit (L = 64 bytes per coordinate)
+    for m in (1, 2):
+        for hn in ("sha256", "sha512", "sha384", "sha1", "sha3_512"):
+            d = hashlib.new(hn).digest_size
+            lim = (255 * d) // (64 * m)
+            cs = sorted(set(c for c in (lim - 1, lim, lim + 1, 127 // m, 128 // m, 129 // m + 1, 255 // m, 256 // m + 1) if c >= 0))
+            tasks.append(("h2f", {"m": m, "hs": [hn], "lms": [3], "lds": [5], "counts": cs}))
     for m in (1, 2):
         for hs in (["sha256"], ["sha512", "sha3_256"], ["sha1", "blake2b"] if not q else ["sha1"]):
             tasks.append(("h2f", {"m": m, "hs": hs, "lms": [0, 3, 16, 64, 128, 1000], "lds": [0, 1, 43, 255, 256],
